@@ -53,6 +53,12 @@ def monotone_roots(b, l, depth=16):
 def alloc_bounded(b, c, size_l):
     """is there a dominating switch comparing a value monotonically derived from size_l against something, too-big arm avoiding the allocation?"""
     root = value_root(b, size_l)
+    # accepted idiom: `n.min(input.len())` — the request is clamped by another quantity
+    sd0 = b.single_def(root)
+    if sd0 and sd0[2] == "call":
+        c0 = b.call_at(sd0[0])
+        if c0 is not None and (c0.declared in ("core::cmp::Ord::min", "core::cmp::min") or c0.name.endswith("::min")):
+            return True
     from ..mirutil import switch_on
     for bi in range(len(b.blocks)):
         if not b.dominates(bi, c.bb):
